@@ -21,7 +21,7 @@ import (
 )
 
 type c39Case struct {
-	// State: dangling-symlink-deep, missing, empty, random, text, pem-public, pem-unknown, pem-corrupt, valid, valid-trailing,
+	// State: pem-empty-body, pem-type-only, pem-data-only, dangling-symlink-deep, missing, empty, random, text, pem-public, pem-unknown, pem-corrupt, valid, valid-trailing,
 	// directory, notdir-parent, dangling-symlink, symlink-loop, symlink-valid, long-name, missing-parent
 	State string      `json:"state"`
 	Key   int         `json:"key"`
@@ -31,7 +31,7 @@ type c39Case struct {
 
 var c39States = []string{"missing", "empty", "random", "text", "pem-public", "pem-unknown", "pem-corrupt", "valid", "valid-trailing",
 	"directory", "notdir-parent", "dangling-symlink", "symlink-loop", "symlink-valid", "long-name", "missing-parent",
-	"pem-keydata-len", "pem-keydata-len", "pem-keytype-other", "pem-key-96", "pem-key-96-mismatch", "dangling-symlink-deep"}
+	"pem-keydata-len", "pem-keydata-len", "pem-keytype-other", "pem-key-96", "pem-key-96-mismatch", "dangling-symlink-deep", "pem-empty-body", "pem-type-only", "pem-data-only"}
 
 // c39UnwritableStates are the states in which no file exists at the path and none can be created there
 var c39UnwritableStates = []string{"missing-parent", "dangling-symlink-deep"}
@@ -101,6 +101,16 @@ func (c c39Case) prepare(dir string) (path, expect string, ok bool) {
 		if n == len(raw) {
 			expect = "same"
 		}
+	case "pem-empty-body", "pem-type-only", "pem-data-only":
+		// the right PEM type around a key message that lacks a field: no fields at all, only the key type, or only 64
+		// bytes of key material without a type. (Another, valid key is parsed first in the same process: whatever that
+		// left behind must not show up here.)
+		if _, perr := keypem.ParsePrivKeyPem(validPEM); perr != nil {
+			ok = false
+		}
+		raw, _ := k.Raw()
+		body := map[string][]byte{"pem-empty-body": {}, "pem-type-only": {0x08, 0x01}, "pem-data-only": append([]byte{0x12, 0x40}, raw...)}[c.State]
+		write(pem.EncodeToMemory(&pem.Block{Type: keypem.PrivPemType, Bytes: body}))
 	case "pem-keytype-other":
 		raw, _ := k.Raw()
 		kt := []byte{0, 2, 3, 7}[len(c.Raw)%4]
